@@ -53,6 +53,11 @@ func main() {
 		return
 	}
 	r.gen(newRng(envSeed()), tierThorough(), args, func(in J) {
+		// three operations that never returned are enough to report; their goroutines are still spinning, and
+		// every further case would only wait out its limit next to them
+		if atomic.LoadInt32(&hangSeen) >= 3 && os.Getenv("VERIF_DRY") == "" {
+			return
+		}
 		// round-trip the input through JSON so that generation and replay see the same thing
 		b, _ := json.Marshal(in)
 		var in2 J
@@ -80,7 +85,7 @@ func waitDone(done <-chan struct{}, base time.Duration) bool {
 	case <-done:
 		return true
 	case <-time.After(limit):
-		atomic.StoreInt32(&hangSeen, 1)
+		atomic.AddInt32(&hangSeen, 1)
 		return false
 	}
 }
